@@ -9,8 +9,21 @@ Three streams (all randomness from random.Random(ctx.seed ...)):
      in no_dispatch) against the Lean model run with the same block-size constant 100;
   C  the Lean model with scaled-down block-size constants (bs in {1,2,3,4,5,7}, n in 2..9) against the
      specification (what the theorem C08_exact states for every bs; an executable sanity check of the model);
-  D  rule selection: the rule of diag / trace the LIVE resolver of /repo selects for a real instance of every
-     modelled kind (alg in {Auto(), Exact()}) against the rule the code model applies.
+  D  rule selection, derived from the LIVE dispatch table: every registered method of cola.linalg.diag / trace
+     (signature, precedence, condition) is enumerated from the running dispatcher; each must have a counterpart in
+     the Lean model's rule table (and vice versa); for every method, every operator kind of the case language x
+     every algorithm class (Auto, Exact, Hutch, HutchPP) that matches its signature and condition is instantiated
+     and the method the live resolver selects is compared with the one the model names.  An unknown method, a
+     method no instance reaches, or a different selection is a VIOLATION (stale model).  The same comparison is
+     made for EVERY real call of streams A, B and E;
+  E  block-constant stream on the REAL code: n in {99,100,101,199,200,201,250} x k in a sample of {-n+1..n-1} that
+     always contains 0, +-1, +-99, +-100, +-101, +-(n-1) (thorough: every k), on Product / no_dispatch operators of
+     all four dtypes (mixed within one operator), integer-valued payloads; compared EXACTLY with np.diag(to_dense, k)
+     and with an independent int64 evaluation of the expression.
+
+Result dtype (three-way, in every stream where the real code runs): dtype of the returned array vs the Lean code
+model (Op.diagDt / Op.traceDt: which arrays are created with which dtype, NumPy promotion) vs the specification
+(Op.dtypeSpec: promotion of the leaf dtypes; cross-checked against numpy.result_type and the operator's .dtype).
 """
 import collections
 import json
@@ -32,7 +45,13 @@ DRIVER = "DriverC08.lean"
 CORPUS = os.path.join(common.ROOT, "harness", "corpus", "c08.jsonl")
 
 # Genuine defects of cola found by this check and not yet decided (repair in /repo or entry in known_findings.json).
-PROVISIONAL_KNOWN = {}
+PROVISIONAL_KNOWN = {
+    "bdiag-zero-multiplicity":
+        "result dtype: BlockDiag(Dense(float32 2x2), Dense(complex64 1x1), multiplicities=[1, 0]) has .dtype complex64 (the "
+        "constructor promotes over ALL blocks) but cola.linalg.diag / trace (rule diag(A: BlockDiag, ...) in "
+        "cola/linalg/trace/diag_trace.py: xnp.concat of the diagonals of the blocks that are present) return float32; "
+        "values are right (witness: theorem C08_dtype_clause_needed, corpus lines 17-20)",
+}
 # (history: `bdiag-nonsquare-block` and `kron-nonsquare-factor` — diag(BlockDiag) / diag(Kronecker) with non-square members
 #  returned wrong values — were found by this check and are repaired in /repo: the rules refuse now; see the corpus and
 #  the regression lemmas C08_regression_block / C08_regression_factor)
@@ -103,14 +122,77 @@ class SqGen(gen.Gen):
 
 
 # ------------------------------------------------------------------------------------------ real code
-def real_call(case, B=None):
-    """observation of the real code: {'ok': exact value} or {'err': class, 'msg': ...}"""
+ALG_INDEX = {"omitted": 0, "auto": 0, "exact": 1, "hutch": 2, "hutchpp": 3}
+
+
+def cname(t):
+    """full name of a class; `Product[Dense, Dense]` -> `cola.ops.operators.Product`"""
+    if t.__module__ == "builtins":
+        return t.__qualname__
+    return f"{t.__module__}.{t.__qualname__}".split("[")[0]
+
+
+def hint_names(h):
+    import types
+    import typing
+    if isinstance(h, types.UnionType) or typing.get_origin(h) is typing.Union:
+        out = []
+        for a in typing.get_args(h):
+            out += hint_names(a)
+        return sorted(out)
+    if isinstance(h, type):
+        return [cname(h)]
+    return ["?" + repr(h)]
+
+
+def sig_name(sig):
+    """canonical name of a registered method: the hints of the positions joined by '|', the members of a union sorted
+    and joined by ','; varargs / a condition are part of the name (the model's table has neither)"""
+    parts = [",".join(hint_names(h)) for h in sig.types]
+    if sig.has_varargs:
+        parts.append("*" + ",".join(hint_names(sig.varargs)))
+    nm = "|".join(parts)
+    if sig.condition is not None:
+        nm += "|cond:" + getattr(sig.condition, "__name__", "?")
+    return nm
+
+
+def live_function(fname):
+    from cola.utils import dispatch
+    F = dispatch.functions[fname]
+    F._resolve_pending_registrations()
+    return F
+
+
+def live_select(fname, args):
+    """the method the live resolver selects for these arguments (canonical name) or the error class"""
+    try:
+        return sig_name(live_function(fname)._resolver.resolve(args))
+    except Exception as ex:  # noqa: BLE001
+        return "error:" + treecheck.err_class(ex)
+
+
+def real_dtname(dtype):
+    try:
+        return build.dtname(dtype)
+    except KeyError:
+        return "other:" + str(dtype)
+
+
+def real_call(case, B=None, A=None):
+    """observation of the real code: {'ok': exact value, 'dtype': ..., 'rule': ...} or {'err': class, 'msg': ..., 'rule': ...};
+    'rule' = the method the live resolver selects for the arguments of the call"""
+    out = {}
     try:
         import cola
         from cola.linalg.algorithm_base import Auto
         from cola.linalg.trace.diagonal_estimation import Exact
-        A = (B or build.Builder()).build(case["op"])
+        if A is None:       # (callers with large operators pass the built operator: Builder.build serialises the expression)
+            A = (B or build.Builder()).build(case["op"])
         alg = case.get("alg", "omitted")
+        algo = Exact() if alg == "exact" else Auto()
+        out["rule"] = live_select("diag", (A, int(case.get("k", 0)), algo)) if case["call"] == "diag" else live_select("trace", (A, algo))
+        out["opdtype"] = real_dtname(A.dtype)
         if case["call"] == "diag":
             k = int(case["k"])
             if alg == "omitted":
@@ -119,9 +201,11 @@ def real_call(case, B=None):
                 r = cola.linalg.diag(A, k, Auto() if alg == "auto" else Exact())
             r = np.asarray(r)
             if r.ndim != 1:
-                return {"err": "not-1d", "msg": f"ndim {r.ndim}"}
+                out.update({"err": "not-1d", "msg": f"ndim {r.ndim}"})
+                return out
             v = build.exact_mat(r)
-            return {"ok": v, "dtype": str(r.dtype)} if v is not None else {"err": "non-finite", "msg": ""}
+            out.update({"ok": v, "dtype": real_dtname(r.dtype)} if v is not None else {"err": "non-finite", "msg": ""})
+            return out
         if case["call"] == "trace":
             if alg == "omitted":
                 r = cola.linalg.trace(A)
@@ -129,12 +213,15 @@ def real_call(case, B=None):
                 r = cola.linalg.trace(A, Auto() if alg == "auto" else Exact())
             r = np.asarray(r)
             if r.ndim != 0:
-                return {"err": "not-0d", "msg": f"ndim {r.ndim}"}
+                out.update({"err": "not-0d", "msg": f"ndim {r.ndim}"})
+                return out
             v = build.exact_mat(r)
-            return {"ok": v, "dtype": str(r.dtype)} if v is not None else {"err": "non-finite", "msg": ""}
+            out.update({"ok": v, "dtype": real_dtname(r.dtype)} if v is not None else {"err": "non-finite", "msg": ""})
+            return out
         raise ValueError(case["call"])
     except Exception as ex:  # noqa: BLE001
-        return {"err": treecheck.err_class(ex), "msg": str(ex)[:160]}
+        out.update({"err": treecheck.err_class(ex), "msg": str(ex)[:160]})
+        return out
 
 
 def fq(x):
@@ -149,7 +236,69 @@ def bound_of(case, ans):
     return b
 
 
+def numpy_spec_dtype(e):
+    """the property's expectation, computed by NumPy itself: result_type of the dtypes of the leaves"""
+    return build.dtname(np.result_type(*[build.DT[d] for d in treecheck.leaf_dtypes(e)]))
+
+
+def model_rule(case, ans):
+    return (ans.get("drules") if case["call"] == "diag" else ans.get("trules"))[ALG_INDEX[case.get("alg", "omitted")]]
+
+
+def judge_rule(case, ans, real):
+    """rule selection of this very call: -> None (agrees) or a description of the difference"""
+    if "rule" not in real or "drules" not in ans:
+        return None
+    want = model_rule(case, ans)
+    if real["rule"] == want:
+        return None
+    return f"selection differs: the live resolver selects the {case['call']} method ({real['rule']}), the model applies ({want})"
+
+
+def judge_dtype(case, ans, real):
+    """three-way comparison of the result dtype -> (status, detail), status in ok | known | violation | stale-model"""
+    rdt, cdt, sdt = real.get("dtype"), ans.get("cdt"), ans.get("sdt")
+    if rdt is None or cdt is None or sdt is None:
+        return "ok", ""
+    npdt = numpy_spec_dtype(case["op"])
+    if npdt != sdt:
+        return "stale-model", f"dtype specification: Lean's promotion of the leaf dtypes is {sdt}, numpy.result_type gives {npdt}"
+    if real.get("opdtype") not in (None, sdt):
+        return "stale-model", f"the operator's .dtype is {real['opdtype']}, the promotion of its leaf dtypes is {sdt}"
+    dtcl = [c for c in ans.get("dtclauses", [])]
+    if rdt == cdt:
+        if cdt == sdt:
+            return "ok", ""
+        if dtcl and all(c in PROVISIONAL_KNOWN or c in KNOWN_JSON for c in dtcl):
+            return "known", dtcl
+        return "violation", f"result dtype {rdt} (= code model) differs from the promotion of the leaf dtypes {sdt} and no named clause covers the case"
+    if rdt == sdt:
+        return "stale-model", f"result dtype: real {rdt} = specification, the code model predicts {cdt}"
+    if dtcl:
+        return "stale-model", f"result dtype: real {rdt}, code model {cdt}, specification {sdt} all differ on a case violating {','.join(dtcl)}"
+    return "violation", f"result dtype {rdt} differs from the promotion of the leaf dtypes {sdt} (code model: {cdt})"
+
+
+KNOWN_JSON = {}
+
+
 def classify(case, ans, real, known):
+    """values, then (where the values are settled) rule selection and result dtype of the same call"""
+    st, det = classify_values(case, ans, real, known)
+    if st in ("ok", "known", "refused-ok", "inexact"):
+        rd = judge_rule(case, ans, real)
+        if rd is not None:
+            return "stale-model", rd
+    if st in ("ok", "known", "inexact") and "ok" in real:
+        dst, ddet = judge_dtype(case, ans, real)
+        if dst in ("violation", "stale-model"):
+            return dst, ddet
+        if dst == "known":
+            return "known", (list(det) if st == "known" else []) + list(ddet)
+    return st, det
+
+
+def classify_values(case, ans, real, known):
     """-> (status, detail); status in
     ok | refused-ok | unmodelled-ok | known | violation | stale-model | skipped | inexact | driver-error"""
     if "error" in ans:
@@ -249,6 +398,13 @@ class Engine:
         self.known_what = {k: v["what"] for k, v in self.known.items()}
         for k, v in PROVISIONAL_KNOWN.items():
             self.known_what.setdefault(k, v)
+        KNOWN_JSON.clear()
+        KNOWN_JSON.update(self.known)
+        self.dtype_hist = collections.Counter()
+        self.sel_mismatch = 0
+        self.block_cov = {}
+        self.live_rules = {}
+        self.rule_hist = collections.Counter()
 
     def mk(self, **kw):
         kw["id"] = self.nid
@@ -287,7 +443,10 @@ class Engine:
             return False          # recorded defects (and hypotheses of C01) are not what a replay should show
         if "err" in real:
             return (c["call"] == "diag" and a.get("drule", "").endswith("LinearOperator") and "ok" in a.get("code", {}))
-        return real["ok"] != a["spec"]
+        if real["ok"] != a["spec"]:
+            return True
+        # result dtype: the real array's dtype differs from the promotion of the leaf dtypes (outside the named clause)
+        return bool(a.get("sdt")) and real.get("dtype") != a["sdt"] and not a.get("dtclauses")
 
     def shrink(self, case):
         cur = case
@@ -338,6 +497,13 @@ class Engine:
                 k = c["k"]
                 self.k_hist["0" if k == 0 else "+-n" if abs(k) == n else ">n" if abs(k) > n else "pos" if k > 0 else "neg"] += 1
             self.cplx_hist["complex" if any(d in ("c64", "c128") for d in treecheck.leaf_dtypes(c["op"])) else "real"] += 1
+            if "dtype" in real and a.get("cdt"):
+                lds = sorted(set(treecheck.leaf_dtypes(c["op"])))
+                self.dtype_hist[("mixed:" if len(lds) > 1 else "uniform:") + real["dtype"]] += 1
+                self.stats["dtype-compared"] += 1
+            if "rule" in real and a.get("drules"):
+                self.rule_hist[c["call"] + ":" + real["rule"]] += 1
+                self.stats["rule-compared"] += 1
             if nontrivial(c):
                 self.distinct.add(common.canon([c["op"], c["call"], c.get("k"), c.get("alg")]))
             if st == "ok" and len(self.samples) < 4 and nontrivial(c) and len(json.dumps(c)) < 700:
@@ -410,13 +576,17 @@ def stream_a_cases(ctx, eng, rng, ntrees):
         seen = {common.canon(e)}
         for s in gen.subexprs(e):
             key = common.canon(s)
-            if key in seen or s[0] in ("eye", "scalar", "diag"):
+            if key in seen:
                 continue
             seen.add(key)
             sh = shape_of(s)
             if sh is None or sh[0] != sh[1]:
                 continue
             m = sh[0]
+            if s[0] in ("eye", "scalar", "diag"):
+                # bare Identity / ScalarMul / Diagonal members: one call each (their rules' values, dtype, selection)
+                cases.append(eng.mk(call="diag", op=s, k=rng.choice([0, 0, 1, -1, m]), alg=rng.choice(ALGS)))
+                continue
             for k in rng.sample(list(range(-m, m + 1)), min(3, 2 * m + 1)):
                 cases.append(eng.mk(call="diag", op=s, k=k, alg=rng.choice(ALGS)))
             cases.append(eng.mk(call="trace", op=s, alg=rng.choice(ALGS)))
@@ -476,20 +646,65 @@ def big_k_sample(rng, n, count):
     return list(dict.fromkeys(pick))
 
 
-def numpy_judge(case, B=None):
-    """real code vs numpy on the dense matrix of the operator (no Lean model involved): -> (good, detail)"""
+def lean_meta(ops):
+    """dtype and rule-selection answers of the Lean model for (large) operators; no values are computed, so dense
+    operators of extent 250 cost only their parsing.  -> {canonical op: header + cdt per (call, k == 0)}"""
+    lines = []
+    for i, e in enumerate(ops):
+        lines.append({"id": i, "call": "batch", "op": e, "nospec": True,
+                      "items": [{"call": "dtype", "of": "diag", "k": 0}, {"call": "dtype", "of": "diag", "k": 1},
+                                {"call": "dtype", "of": "trace"}]})
+    res = oracle.run_driver(lines, driver=DRIVER, nproc=min(16, max(1, len(lines))))
+    out = {}
+    for i, e in enumerate(ops):
+        a = res.get(i, {"error": "no answer from driver"})
+        if "error" in a:
+            out[common.canon(e)] = {"error": a["error"]}
+            continue
+        m = {k: v for k, v in a.items() if k != "results"}
+        m["cdt_diag0"], m["cdt_diagk"], m["cdt_trace"] = (r["cdt"] for r in a["results"])
+        out[common.canon(e)] = m
+    return out
+
+
+def meta_answer(meta, case):
+    """the part of a driver answer the rule / dtype judgement needs, for one call on an operator of `lean_meta`
+    (`meta`: the result of lean_meta, or the entry of this operator)"""
+    m = None
+    if meta:
+        m = meta if "sdt" in meta or "error" in meta else meta.get(common.canon(case["op"]))
+    if not m or "error" in m:
+        return None
+    a = dict(m)
+    a["cdt"] = m["cdt_trace"] if case["call"] == "trace" else m["cdt_diag0"] if int(case["k"]) == 0 else m["cdt_diagk"]
+    return a
+
+
+def numpy_judge(case, B=None, meta=None, want=None, A=None):
+    """real code vs numpy on the dense matrix of the operator (values: no Lean model involved), then rule selection and
+    result dtype of the same call against the Lean model (`meta`): -> (good, detail, has_failing_input)"""
     B = B or build.Builder()
-    A = B.build(case["op"])
-    ref = np.asarray(A.to_dense())
-    real = real_call(case, B)
-    want = build.exact_mat(np.diag(ref, int(case["k"])) if case["call"] == "diag" else np.trace(ref))
+    if A is None:
+        A = B.build(case["op"])
+    real = real_call(case, B, A)
+    if want is None:
+        ref = np.asarray(A.to_dense())
+        want = build.exact_mat(np.diag(ref, int(case["k"])) if case["call"] == "diag" else np.trace(ref))
     if "err" in real:
         # a refusal would be allowed by the property, but the probing path has no reason to refuse a square
         # operator: the model (and theorem C08_exact) say it returns the diagonal
-        return False, {"real": real, "want": want, "why": "the probing path refused a square operator"}
+        return False, {"real": real, "want": want, "why": "the probing path refused a square operator"}, True
     if real["ok"] != want:
-        return False, {"real": real["ok"], "want": want, "why": "values differ from numpy's diagonal / trace of the dense matrix"}
-    return True, None
+        return False, {"real": real["ok"], "want": want, "why": "values differ from numpy's diagonal / trace of the dense matrix"}, True
+    a = meta_answer(meta, case)
+    if a is not None:
+        rd = judge_rule(case, a, real)
+        if rd is not None:
+            return False, {"why": rd, "real_rule": real.get("rule")}, False
+        dst, ddet = judge_dtype(case, a, real)
+        if dst in ("violation", "stale-model"):
+            return False, {"why": ddet, "real_dtype": real.get("dtype"), "code_dtype": a.get("cdt"), "spec_dtype": a.get("sdt")}, real.get("dtype") != a.get("sdt")
+    return True, {"dtype": real.get("dtype"), "rule": real.get("rule"), "lean": a is not None}, False
 
 
 def int_rows(M):
@@ -498,12 +713,51 @@ def int_rows(M):
     return [[int(z) for z in row] for row in M]
 
 
+def run_numpy_stream(ctx, eng, groups, stream, label):
+    """groups: [(form name, n, expression, cases, want-by-case-index or None)].  One driver run for the dtype / rule
+    answers of all operators, then every real call is judged."""
+    meta = lean_meta([g[2] for g in groups])
+    for m in meta.values():
+        if "error" in m:
+            eng.stats["driver-error"] += 1
+            ctx.notes.append(f"driver error ({stream}, dtype/rule answers): {m['error']}")
+    reported = 0
+    for gi, (name, n, e, cases, wants) in enumerate(groups):
+        B = build.Builder()
+        A = B.build(e)
+        m = meta.get(common.canon(e))
+        if wants is None:
+            ref = np.asarray(A.to_dense())
+            wants = [build.exact_mat(np.diag(ref, int(c["k"])) if c["call"] == "diag" else np.trace(ref)) for c in cases]
+        for ci, c in enumerate(cases):
+            eng.stats["evaluations"] += 1
+            eng.stats["stream-" + stream] += 1
+            good, det, has_input = numpy_judge(c, B, m, wants[ci], A)
+            if good:
+                eng.stats["ok"] += 1
+                eng.size_hist[n] += 1
+                if c["call"] == "diag":
+                    eng.k_hist["big|k|>=100" if abs(c["k"]) >= 100 else "big|k|<100"] += 1
+                if det.get("lean"):
+                    lds = sorted(set(treecheck.leaf_dtypes(e)))
+                    eng.dtype_hist[("mixed:" if len(lds) > 1 else "uniform:") + str(det["dtype"])] += 1
+                    eng.stats["dtype-compared"] += 1
+                    eng.rule_hist[c["call"] + ":" + str(det["rule"])] += 1
+                    eng.stats["rule-compared"] += 1
+                eng.distinct.add(common.canon([stream, name, n, gi, c["call"], c["k"], c.get("tag"), c["alg"]]))
+            else:
+                eng.stats["violation"] += 1
+                reported += 1
+                if reported <= 3:
+                    common.violation(ctx, {"stream": label, "form": name, "n": n, "case": c, "detail": det,
+                                           "replay_cmd": f"./check {ctx.prop} quick --replay <this file>"}, no_input=not has_input)
+
+
 def stream_b_numpy(ctx, eng, rng):
     """real code at the true sizes on the generic probing path vs numpy's np.diag / np.trace"""
     nprng = np.random.default_rng(ctx.seed * 101 + 7)
-    checked = 0
-    reported = 0
     reps = 3 if ctx.thorough else 1
+    groups = []
     for n in BIG_N:
         for rep in range(reps):
             for cplx in (False, True):
@@ -514,29 +768,153 @@ def stream_b_numpy(ctx, eng, rng):
                 perm = [int(x) for x in nprng.permutation(n)]
                 dense = ["dense", dt, n, n, int_rows(M)]
                 forms = [("no_dispatch(Dense)", ["generic", dense]), ("Product(Dense, Permutation)", ["prod", dense, ["perm", dt, perm]])]
-                B = build.Builder()
                 for name, e in forms:
-                    cases = [{"call": "diag", "op": e, "k": k, "alg": rng.choice(ALGS), "oracle": "numpy"}
+                    cases = [{"call": "diag", "op": e, "k": k, "alg": rng.choice(ALGS), "oracle": "numpy", "tag": [cplx, rep]}
                              for k in big_k_sample(rng, n, 9 if not ctx.thorough else 19)]
-                    cases += [{"call": "trace", "op": e, "k": 0, "alg": alg, "oracle": "numpy"} for alg in ALGS]
-                    for c in cases:
-                        checked += 1
-                        eng.stats["evaluations"] += 1
-                        eng.stats["stream-B-numpy"] += 1
-                        good, det = numpy_judge(c, B)
-                        if good:
-                            eng.stats["ok"] += 1
-                            eng.size_hist[n] += 1
-                            if c["call"] == "diag":
-                                eng.k_hist["big|k|>=100" if abs(c["k"]) >= 100 else "big|k|<100"] += 1
-                            eng.distinct.add(common.canon(["B", name, n, c["call"], c["k"], cplx, rep, c["alg"]]))
-                        else:
-                            eng.stats["violation"] += 1
-                            reported += 1
-                            if reported <= 3:
-                                common.violation(ctx, {"stream": "block-boundary (numpy oracle)", "form": name, "n": n, "case": c, "detail": det,
-                                                       "replay_cmd": f"./check {ctx.prop} quick --replay <this file>"})
-    return checked
+                    cases += [{"call": "trace", "op": e, "k": 0, "alg": alg, "oracle": "numpy", "tag": [cplx, rep]} for alg in ALGS]
+                    groups.append((name, n, e, cases, None))
+    run_numpy_stream(ctx, eng, groups, "B-numpy", "block-boundary (numpy oracle)")
+    return sum(len(g[3]) for g in groups)
+
+
+# ------------------------------------------------------------------------------------------ stream E
+BLOCK_N = [99, 100, 101, 199, 200, 201, 250]
+
+
+def int_eval(e):
+    """independent exact evaluation of an expression of the block stream with int64 arithmetic:
+    -> (re, im, ab) with ab an entrywise bound of every intermediate magnitude"""
+    t = e[0]
+
+    def cz(v):
+        return (int(v[0]), int(v[1])) if isinstance(v, list) else (int(v), 0)
+    if t == "dense":
+        re = np.array([[cz(v)[0] for v in row] for row in e[4]], dtype=np.int64).reshape(e[2], e[3])
+        im = np.array([[cz(v)[1] for v in row] for row in e[4]], dtype=np.int64).reshape(e[2], e[3])
+        return re, im, np.abs(re) + np.abs(im)
+    if t == "diag":
+        re = np.diag(np.array([cz(v)[0] for v in e[2]], dtype=np.int64))
+        im = np.diag(np.array([cz(v)[1] for v in e[2]], dtype=np.int64))
+        return re, im, np.abs(re) + np.abs(im)
+    if t == "tridiag":
+        n = len(e[3])
+        re, im = np.zeros((n, n), dtype=np.int64), np.zeros((n, n), dtype=np.int64)
+        for i, v in enumerate(e[3]):
+            re[i, i], im[i, i] = cz(v)
+        for i, v in enumerate(e[2]):       # alpha: lower band
+            re[i + 1, i], im[i + 1, i] = cz(v)
+        for i, v in enumerate(e[4]):       # gamma: upper band
+            re[i, i + 1], im[i, i + 1] = cz(v)
+        return re, im, np.abs(re) + np.abs(im)
+    if t == "perm":
+        n = len(e[2])
+        re = np.zeros((n, n), dtype=np.int64)
+        re[np.arange(n), np.array(e[2])] = 1          # (P @ X)[i] = X[perm[i]]
+        return re, np.zeros((n, n), dtype=np.int64), re.copy()
+    if t == "generic":
+        return int_eval(e[1])
+    if t == "prod":
+        re, im, ab = int_eval(e[1])
+        for x in e[2:]:
+            r2, i2, a2 = int_eval(x)
+            re, im, ab = re @ r2 - im @ i2, re @ i2 + im @ r2, ab @ a2
+        return re, im, ab
+    if t == "sum":
+        re, im, ab = int_eval(e[1])
+        for x in e[2:]:
+            r2, i2, a2 = int_eval(x)
+            re, im, ab = re + r2, im + i2, ab + a2
+        return re, im, ab
+    raise ValueError(f"int_eval: kind {t} is not part of the block stream")
+
+
+def block_k_sample(rng, n, extra):
+    must = [0, 1, -1, 99, -99, 100, -100, 101, -101, n - 1, -(n - 1)]
+    must = [k for k in dict.fromkeys(must) if abs(k) <= n - 1]
+    pool = [k for k in range(-n + 1, n) if k not in must]
+    return must + rng.sample(pool, min(extra, len(pool)))
+
+
+def block_forms(rng, nprng, n):
+    """Product / no_dispatch operators of extent n, every leaf with its own dtype, integer-valued payloads"""
+    def payload(dt, shape, density):
+        M = nprng.integers(-3, 4, size=shape) * (nprng.random(shape) < density)
+        if gen.is_cplx(dt):
+            M = M + 1j * (nprng.integers(-3, 4, size=shape) * (nprng.random(shape) < density))
+        return M
+
+    def dense(density=0.25):
+        dt = rng.choice(gen.DTYPES)
+        return ["dense", dt, n, n, int_rows(payload(dt, (n, n), density))]
+
+    def vec(dt, m, density=0.9):
+        return int_rows(payload(dt, (1, m), density))[0]
+
+    def dg():
+        dt = rng.choice(gen.DTYPES)
+        return ["diag", dt, vec(dt, n)]
+
+    def perm():
+        p = list(range(n))
+        s = rng.choice([1, 2, 99, 100, 101, n - 1, rng.randint(1, n - 1)]) % n
+        if rng.random() < 0.5:
+            p = p[s:] + p[:s]
+        else:
+            rng.shuffle(p)
+        return ["perm", rng.choice(gen.DTYPES), p]
+
+    def tri():
+        dt = rng.choice(gen.DTYPES)
+        return ["tridiag", dt, vec(dt, n - 1), vec(dt, n), vec(dt, n - 1)]
+    return [
+        ("no_dispatch(Dense)", lambda: ["generic", dense(0.4)]),
+        ("Product(Dense, Dense)", lambda: ["prod", dense(), dense()]),
+        ("Product(Dense, Permutation)", lambda: ["prod", dense(0.5), perm()]),
+        ("no_dispatch(Product(Diagonal, Dense))", lambda: ["generic", ["prod", dg(), dense(0.5)]]),
+        ("Product(Permutation, Dense, Diagonal)", lambda: ["prod", perm(), dense(0.5), dg()]),
+        ("Product(Tridiagonal, Dense)", lambda: ["prod", tri(), dense()]),
+        ("no_dispatch(Sum(Dense, Product(Permutation, Dense)))", lambda: ["generic", ["sum", dense(), ["prod", perm(), dense()]]]),
+    ]
+
+
+def stream_e(ctx, eng, rng):
+    """behaviour at the real block constant 100: sizes around 100, 200 and 250, offsets around 0, +-99..101, +-(n-1)"""
+    nprng = np.random.default_rng(ctx.seed * 977 + 13)
+    groups = []
+    skipped = 0
+    for n in BLOCK_N:
+        forms = block_forms(rng, nprng, n)
+        chosen = forms if ctx.thorough else rng.sample(forms, 3)
+        for rep in range(2 if ctx.thorough else 1):
+            for name, mk in chosen:
+                e = mk()
+                re, im, ab = int_eval(e)
+                limit = treecheck.F32_BOUND if any(d in ("f32", "c64") for d in treecheck.leaf_dtypes(e)) else treecheck.F64_BOUND
+                if int(ab.max()) * 4 >= limit:
+                    skipped += 1          # (does not happen with these payloads; kept so that exactness is never assumed)
+                    continue
+                # the dense matrix of the operator must be the independently computed integer matrix (to_dense = den is C01)
+                Dm = np.asarray(build.Builder().build(e).to_dense())
+                if not (np.array_equal(np.real(Dm), re) and np.array_equal(np.imag(Dm), im)):
+                    eng.stats["to_dense!=int-oracle"] += 1
+                    ctx.notes.append(f"stream E: to_dense() of {name} (n={n}) differs from the int64 evaluation of the expression (C01's business); np.diag(to_dense) is used")
+                    re, im = np.real(Dm).astype(np.int64), np.imag(Dm).astype(np.int64)
+                Z = re + 1j * im
+                ks = list(range(-n + 1, n)) if ctx.thorough else block_k_sample(rng, n, 10)
+                cases, wants = [], []
+                for i, k in enumerate(ks):
+                    cases.append({"call": "diag", "op": e, "k": k, "alg": ALGS[i % 3], "oracle": "numpy", "tag": [rep]})
+                    wants.append(build.exact_mat(np.diag(Z, k)))
+                for alg in ALGS:
+                    cases.append({"call": "trace", "op": e, "k": 0, "alg": alg, "oracle": "numpy", "tag": [rep]})
+                    wants.append(build.exact_mat(np.trace(Z)))
+                groups.append((name, n, e, cases, wants))
+    run_numpy_stream(ctx, eng, groups, "E", "block constant 100 (numpy / int64 oracle)")
+    eng.block_cov = {"sizes": BLOCK_N, "operators": len(groups), "skipped_inexact": skipped,
+                     "forms": dict(collections.Counter(g[0] for g in groups)),
+                     "offsets_always": "0, +-1, +-99, +-100, +-101, +-(n-1) (when |k| <= n-1)" + ("; thorough: every k in -n+1..n-1" if ctx.thorough else " + 10 random"),
+                     "leaf_dtypes": dict(collections.Counter(d for g in groups for d in treecheck.leaf_dtypes(g[2])))}
+    return sum(len(g[3]) for g in groups)
 
 
 def structured_op(rng, n, cplx):
@@ -653,18 +1031,48 @@ KIND_EXAMPLES = [
 ]
 
 
-def stream_d(ctx, eng):
-    """rule selection: for one real instance of every modelled kind and alg in {Auto(), Exact()} the rule the LIVE
-    resolver selects for diag / trace must be the rule the code model applies (first-position class of its signature)"""
-    from cola.linalg.algorithm_base import Auto
-    from cola.linalg.trace.diagonal_estimation import Exact
-    from cola.utils import dispatch
+# one more instance per kind where the class is @parametric (Product[Dense, Dense] and Product[Dense, Diagonal] are
+# different runtime classes) or the members have mixed dtypes
+KIND_EXAMPLES += [
+    ["prod", ["diag", "f32", [1, 2]], ["perm", "c64", [1, 0]], ["dense", "f64", 2, 2, [[1, 2], [3, 4]]]],
+    ["sum", ["eye", "f32", 2], ["scalar", "c64", [1, 1], 2], ["tridiag", "f64", [1], [2, 3], [4]]],
+    ["kron", ["eye", "f32", 2], ["prod", ["dense", "f64", 2, 2, [[1, 2], [3, 4]]], ["diag", "c64", [1, 2]]]],
+    ["kronsum", ["tri", "f32", 2, 2, False, [[1, 2], [0, 4]]], ["house", "f64", [1, 2], 1]],
+    ["bdiag", [["scalar", "f32", 2, 1], ["generic", ["dense", "c128", 2, 2, [[1, 2], [3, 4]]]]], [2, 1]],
+    ["T", ["prod", ["dense", "f64", 2, 3, [[1, 2, 3], [4, 5, 6]]], ["dense", "f32", 3, 2, [[1, 2], [3, 4], [5, 6]]]]],
+    ["H", ["tridiag", "c64", [[0, 1]], [2, 3], [4]]],
+    ["generic", ["kron", ["diag", "f64", [1, 2]], ["diag", "f64", [1, 2]]]],
+    ["ann", "Unitary", ["perm", "f64", [1, 0]]],
+    ["ann", "SelfAdjoint", ["tri", "f64", 2, 2, True, [[1, 0], [0, 4]]]],
+    ["ann", "PSD", ["bdiag", [["diag", "f64", [1, 2]], ["eye", "f32", 1]], [1, 2]]],
+    ["ann", "PSD", ["eye", "f64", 3]],
+    ["ann", "PSD", ["scalar", "f64", 2, 3]],
+    ["ann", "PSD", ["kronsum", ["diag", "f64", [1, 2]], ["diag", "f64", [1, 2]]]],
+    ["ann", "SelfAdjoint", ["diag", "f64", [1, 2]]],
+]
+CASE_LANGUAGE_KINDS = ["dense", "tri", "sparse", "scalar", "eye", "prod", "sum", "kron", "kronsum", "bdiag", "diag", "tridiag",
+                       "T", "H", "slice", "perm", "concat", "house", "generic", "ann"]
+ALG_CLASSES = ["auto", "exact", "hutch", "hutchpp"]
 
-    def cname(t):
-        return f"{t.__module__}.{t.__qualname__}".split("[")[0]
+
+def stream_d(ctx, eng):
+    """rule selection, derived from the LIVE dispatch table (see the module docstring)"""
+    from cola.linalg.algorithm_base import Auto
+    from cola.linalg.trace.diagonal_estimation import Exact, Hutch, HutchPP
+    assert sorted({e[0] for e in KIND_EXAMPLES}) == sorted(CASE_LANGUAGE_KINDS), "an operator kind of the case language has no instance"
+    alg_obj = {"auto": Auto(), "exact": Exact(), "hutch": Hutch(), "hutchpp": HutchPP()}
+    # ---- the model's tables and its selection for every instance
+    head = oracle.run_driver([{"id": "rules", "call": "rules"}], driver=DRIVER, nproc=1).get("rules", {"error": "no answer"})
     cases = [eng.mk(call="diag", op=e, k=0, alg="exact") for e in KIND_EXAMPLES]
     ans = drive(cases)
     B = build.Builder()
+    report = {}
+    if "error" in head:
+        eng.stats["driver-error"] += 1
+        ctx.notes.append(f"driver error (stream D, rule tables): {head['error']}")
+        return report
+    model_tables = {"diag": head["diag"], "trace": head["trace"]}
+    insts = []
     for c in cases:
         a = ans.get(c["id"], {"error": "no answer"})
         if "error" in a:
@@ -672,41 +1080,103 @@ def stream_d(ctx, eng):
             eng.stats["driver-error"] += 1
             continue
         A = B.build(c["op"])
-        for fname, key in (("diag", "drule"), ("trace", "trule")):
-            F = dispatch.functions[fname]
-            F._resolve_pending_registrations()
-            for alg in (Auto(), Exact()):
+        if cname(type(A)) != a["cls"]:
+            eng.stats["stale-model"] += 1
+            common.violation(ctx, {"broken": f"class of the operator object: real {cname(type(A))}, model {a['cls']}", "case": c}, no_input=True)
+            continue
+        insts.append((c, a, A))
+
+    def search_input(fname, members):
+        """a concrete input among the instances on which the real code contradicts the specification"""
+        for (c, a, A, algk) in members:
+            if algk not in ("auto", "exact"):
+                continue
+            for k in ((0, 1, -1) if fname == "diag" else (0, )):
+                cc = dict(c)
+                cc.update({"k": k, "alg": algk, "call": fname})
+                try:
+                    if eng.fails(cc):
+                        return cc
+                except Exception:  # noqa: BLE001
+                    pass
+        return None
+
+    for fname in ("diag", "trace"):
+        F = live_function(fname)
+        sigs = list(F._resolver.signatures)
+        rows = []
+        live_names = []
+        for s_ in sigs:
+            nm = sig_name(s_)
+            live_names.append(nm)
+            rows.append({"method": nm, "precedence": s_.precedence, "condition": None if s_.condition is None else getattr(s_.condition, "__name__", "?"),
+                         "impl": f"{s_.implementation.__module__}:{getattr(getattr(s_.implementation, '__code__', None), 'co_firstlineno', '?')}",
+                         "in_model_table": nm in model_tables[fname], "instances_matching": 0, "instances_selected": 0, "kinds_selected": []})
+        by_name = {r["method"]: r for r in rows}
+        matching = {r["method"]: [] for r in rows}
+        selected = {r["method"]: [] for r in rows}
+        for (c, a, A) in insts:
+            for ai, algk in enumerate(ALG_CLASSES):
+                args = (A, 0, alg_obj[algk]) if fname == "diag" else (A, alg_obj[algk])
                 eng.stats["evaluations"] += 1
                 eng.stats["stream-D"] += 1
-                try:
-                    sig = F._resolver.resolve((A, 0, alg) if fname == "diag" else (A, alg))
-                    live = cname(sig.types[0])
-                except Exception as ex:  # noqa: BLE001
-                    live = treecheck.err_class(ex)
-                live_cls = cname(type(A))
-                if live == a[key] and live_cls == a["cls"]:
+                for s_, nm in zip(sigs, live_names):
+                    try:
+                        m = bool(s_.match(args)) and (s_.condition is None or bool(s_.condition(*args)))
+                    except Exception:  # noqa: BLE001
+                        m = False
+                    if m:
+                        by_name[nm]["instances_matching"] += 1
+                        matching[nm].append((c, a, A, algk))
+                live = live_select(fname, args)
+                want = (a["drules"] if fname == "diag" else a["trules"])[ai]
+                if live in by_name:
+                    by_name[live]["instances_selected"] += 1
+                    selected[live].append((c, a, A, algk))
+                    kd = c["op"][0] + ("/" + c["op"][2][0] if c["op"][0] == "ann" else "")
+                    if kd not in by_name[live]["kinds_selected"]:
+                        by_name[live]["kinds_selected"].append(kd)
+                if live == want:
                     eng.stats["ok"] += 1
-                    eng.distinct.add(common.canon(["D", c["op"][0], c["op"][1] if c["op"][0] == "ann" else "", fname, type(alg).__name__]))
+                    eng.distinct.add(common.canon(["D", c["op"], fname, algk]))
                 else:
                     eng.stats["stale-model"] += 1
-                    near = None
-                    for k in (0, 1, -1):
-                        cc = dict(c)
-                        cc.update({"k": k, "alg": "auto" if isinstance(alg, Auto) else "exact", "call": fname})
-                        try:
-                            if eng.fails(cc):
-                                near = cc
-                                break
-                        except Exception:  # noqa: BLE001
-                            pass
+                    eng.sel_mismatch += 1
+                    if eng.sel_mismatch > 3:
+                        continue
+                    near = search_input(fname, [(c, a, A, algk)])
+                    detail = (f"selection differs: for a {a['cls']} and an algorithm object of class {type(alg_obj[algk]).__name__} the live resolver "
+                              f"selects the {fname} method ({live}), the model applies ({want})")
                     if near is not None:
-                        common.violation(ctx, {"case": near, "detail": f"the live resolver selects the {fname} rule of {live} for a {live_cls}, "
-                                               f"the model applies the rule of {a[key]}; on this input the real code contradicts the specification",
+                        common.violation(ctx, {"case": near, "detail": detail + "; on this input the real code contradicts the specification",
                                                "replay_cmd": f"./check {ctx.prop} quick --replay <this file>"})
                     else:
-                        common.violation(ctx, {"broken": f"rule selection of {fname}: the live resolver selects the rule of {live} for a {live_cls} "
-                                               f"(alg {type(alg).__name__}), the code model applies the rule of {a[key]} for a {a['cls']}",
-                                               "case": c}, no_input=True)
+                        common.violation(ctx, {"broken": "rule selection of " + fname + ": " + detail, "case": c}, no_input=True)
+        # ---- the two tables must be the same set of methods; every live method must be reached by an instance
+        for r in rows:
+            nm = r["method"]
+            if not r["in_model_table"]:
+                eng.stats["stale-model"] += 1
+                near = search_input(fname, selected[nm] + matching[nm])
+                detail = (f"unknown rule: the live dispatch table of {fname} has the method ({nm}) [precedence {r['precedence']}, condition "
+                          f"{r['condition']}, {r['impl']}], the Lean model (Op.{fname}RuleTable) has no counterpart; "
+                          f"{r['instances_matching']} instances match it, {r['instances_selected']} select it")
+                if near is not None:
+                    common.violation(ctx, {"case": near, "detail": detail + "; on this input the real code contradicts the specification",
+                                           "replay_cmd": f"./check {ctx.prop} quick --replay <this file>"})
+                else:
+                    common.violation(ctx, {"broken": "stale model: " + detail}, no_input=True)
+            elif r["instances_matching"] == 0:
+                eng.stats["stale-model"] += 1
+                common.violation(ctx, {"broken": f"the method ({nm}) of {fname} is matched by no operator kind x algorithm class of the case language: "
+                                                 "it is not exercised by this check"}, no_input=True)
+        for nm in model_tables[fname]:
+            if nm not in by_name:
+                eng.stats["stale-model"] += 1
+                common.violation(ctx, {"broken": f"stale model: the Lean model's table of {fname} has the method ({nm}), the live dispatch table does not "
+                                                 f"(live: {live_names})"}, no_input=True)
+        report[fname] = rows
+    return report
 
 
 # ------------------------------------------------------------------------------------------ entry
@@ -730,11 +1200,11 @@ def run(ctx):
             c = dict(c)
             c["id"] = 0
             if c.get("oracle") == "numpy":
-                good, det = numpy_judge(c)
+                good, det, has_input = numpy_judge(c, None, lean_meta([c["op"]]))
                 eng.stats["evaluations"] += 1
                 if not good:
                     common.violation(ctx, {"stream": "block-boundary (numpy oracle)", "case": c, "detail": det,
-                                           "replay_cmd": f"./check {ctx.prop} quick --replay <this file>"})
+                                           "replay_cmd": f"./check {ctx.prop} quick --replay <this file>"}, no_input=not has_input)
                 print(json.dumps({"replayed": {k: v for k, v in c.items() if k != "op"}, "status": "ok" if good else "violation",
                                   "detail": det})[:3000])
             else:
@@ -760,8 +1230,10 @@ def run(ctx):
         timings["B-numpy"] = round(ctx.wall(), 1)
         stream_c(ctx, eng, rng, 60 if not ctx.thorough else 1200)
         timings["C"] = round(ctx.wall(), 1)
-        stream_d(ctx, eng)
+        eng.live_rules = stream_d(ctx, eng)
         timings["D"] = round(ctx.wall(), 1)
+        stream_e(ctx, eng, rng)
+        timings["E"] = round(ctx.wall(), 1)
     if gate_err is not None and not ctx.violations:
         common.violation(ctx, {"broken": f"Lean gate of {MODULE}", "detail": gate_err[-3000:]}, no_input=True)
     cov = {
@@ -776,6 +1248,10 @@ def run(ctx):
         "k_classes": dict(eng.k_hist),
         "algs": dict(eng.alg_hist),
         "real_complex": dict(eng.cplx_hist),
+        "result_dtypes_compared": dict(eng.dtype_hist),
+        "rules_selected_in_real_calls": dict(eng.rule_hist),
+        "live_rules": eng.live_rules,
+        "block_constant_stream": eng.block_cov,
         "samples": eng.samples,
         "provisional_known": PROVISIONAL_KNOWN,
         "notes": ctx.notes[:8],
@@ -787,6 +1263,10 @@ def run(ctx):
         "Hutchinson estimation (Auto with numel >= 1e11, alg=Hutch) is outside C08 and outside the model ('unmodelled:hutch')",
         "the block size 100 of exact_diag is a universally quantified parameter bs0 > 0 of the theorems; the real loop is exercised at the true sizes "
         "99..250 against numpy and against the Lean model with bs0 = 100",
+        "result dtype: the code model of `A @ chunk` is C01's Op.mmDtype (promote_types(A.dtype, X.dtype)); NEP 50 (a weak Python 0 / 0. adopts the "
+        "array's dtype) and numpy's promotion of the four floating dtypes are modelled, and compared with numpy.result_type on every case",
+        "rule selection: the model's rule tables are compared with the live dispatch table on every run (stream D); that the Lean function "
+        "diagRuleSig equals plum's resolution is carried by that comparison on every instance and every real call, not by a theorem about plum",
         "diag of a NON-square operand through the probing loop is not modelled ('unmodelled:nonsquare-exact'); since the BlockDiag / Kronecker rules refuse non-square members it is unreachable from a square tree",
     ])
     print(json.dumps({"outcomes": cov["outcomes"], "distinct_nontrivial": cov["distinct_nontrivial"],
